@@ -38,44 +38,54 @@ ACTIONS = ("Message", "SelectZone", "WriteData", "WriteEof", "StartRun", "GenKey
 
 
 # ------------------------------------------------------------------------------------------------
-LAYOUT_SHAPES = ("name", "absolute", "dotslash", "blanks-nonascii", "cwd-elsewhere", "output-elsewhere")
+LAYOUT_SHAPES = (
+    ("name", {"addr": "rel", "cwd": "imgdir", "pub": "rel", "spell": "plain"}),
+    ("absolute", {"addr": "abs", "cwd": "imgdir", "pub": "abs", "spell": "plain"}),
+    ("dotslash", {"addr": "dotslash", "cwd": "imgdir", "pub": "rel", "spell": "plain"}),
+    ("blanks-nonascii", {"addr": "rel", "cwd": "imgdir", "pub": "rel", "spell": "plain"}),
+    ("cwd-elsewhere", {"addr": "rel", "cwd": "other", "pub": "rel", "spell": "plain"}),
+    ("output-elsewhere", {"addr": "abs", "cwd": "imgdir", "pub": "otherdir", "spell": "plain"}),
+    ("dotdot-link-decoy", {"addr": "rel", "cwd": "imgdir", "pub": "rel", "spell": "dotdot-link-decoy"}),
+    ("dotdot-link-empty", {"addr": "abs", "cwd": "other", "pub": "abs", "spell": "dotdot-link-empty"}),
+    ("dotdot-real", {"addr": "rel", "cwd": "other", "pub": "rel", "spell": "dotdot-real"}),
+    ("via-link", {"addr": "dotslash", "cwd": "imgdir", "pub": "otherdir", "spell": "via-link"}),
+    ("file-link", {"addr": "rel", "cwd": "imgdir", "pub": "abs", "spell": "file-link"}),
+    ("slashes", {"addr": "abs", "cwd": "imgdir", "pub": "rel", "spell": "slashes"}),
+    ("inner-dot", {"addr": "rel", "cwd": "other", "pub": "otherdir", "spell": "inner-dot"}),
+)
+_DECOY = ":020000040000FA\n:04004000DEC0DEC09E\n:00000001FF\n"
 
 
 def exec_layout(ctx, lay, tag, k, shapes=None):
     """Write the layout as a real .hex and run the three tools that report its hash; the way the
     file (and the -o file) is named on the command line cycles through LAYOUT_SHAPES."""
     ai.check_writer(lay)
-    d = os.path.join(ctx.scratch, "lay")
-    shape = LAYOUT_SHAPES[k % len(LAYOUT_SHAPES)]
+    d = os.path.realpath(os.path.join(ctx.scratch, "lay"))
+    shape, form = LAYOUT_SHAPES[k % len(LAYOUT_SHAPES)]
     if shapes is not None:
         shapes[shape] = shapes.get(shape, 0) + 1
     name = "app_%s.hex" % tag
     if shape == "blanks-nonascii":
         name = os.path.join("my apps", "firmware %s \u00f1\u00e9 v2.hex" % tag)
-    path = os.path.join(d, name)
+    path = os.path.join(d, "img", name)
     os.makedirs(os.path.dirname(path), exist_ok=True)
-    os.makedirs(os.path.join(d, "wd"), exist_ok=True)
-    os.makedirs(os.path.join(d, "else where"), exist_ok=True)
-    cwd = os.path.join(d, "wd") if shape == "cwd-elsewhere" else d
-    arg = {"name": name, "blanks-nonascii": name, "absolute": path, "output-elsewhere": path,
-           "dotslash": "." + os.sep + name, "cwd-elsewhere": os.path.relpath(path, cwd)}[shape]
+    inv = ai.Invocation(d, form, _DECOY)
     ai.write_hex(lay, path)
+    arg, _ = inv.img_arg(os.path.join("img", name), 0)
     reports, hins = [], []
     pareas = ai.observe_parser(path)
     r, h = ai.run_compute(path)
     reports.append(r)
     hins += h
-    r, h, _ = ai.run_signapp_hash(arg, cwd=cwd)
+    r, h, _ = ai.run_signapp_hash(arg, cwd=inv.cwd)
     reports.append(r)
     hins += h
     it = (k * 7919) % 65536
-    if k % 3 == 0 or shape == "output-elsewhere":
-        out = "auth_%s.json" % tag
-        if shape == "output-elsewhere":
-            out = os.path.join(d, "else where", out) if k % 2 else os.path.join("else where", out)
-        r, h, _ = ai.run_signapp_message(arg, it, out, cwd=cwd)
+    if k % 3 == 0 or shape == "output-elsewhere" or form["spell"] != "plain":
+        out_abs, out_arg = inv.out_file("auth_%s.json" % tag)
+        r, h, _ = ai.run_signapp_message(arg, it, out_arg, cwd=inv.cwd, out_read=out_abs)
     else:
-        r, h, _ = ai.run_signapp_message(arg, it, None, cwd=cwd)
+        r, h, _ = ai.run_signapp_message(arg, it, None, cwd=inv.cwd)
     reports.append(r)
     hins += h
     shutil.rmtree(d, ignore_errors=True)
@@ -406,10 +416,28 @@ def run(ctx):
     rng.shuffle(order)
     n_sessions = ctx.pick(min(len(order), 180), min(len(order), 2000))
     n_child = ctx.pick(3, 40)
-    # a third of the budget: sessions with a run that names two different images by one file name
+    # a third of the budget: sessions with a run that names two different images by one file name;
+    # another third: sessions whose paths are not spelled in normal form, every spelling in turn
     first = [k for k in order if clashes(msessions[k])][:n_sessions // 3]
-    order = first[:n_child // 2] + [k for k in order if k not in set(first)][:n_sessions - len(first)] \
-        + first[n_child // 2:]
+    taken = set(first)
+    by_spell = {}
+    for k in order:
+        if k not in taken:
+            for st in msessions[k]["plan"]:
+                sp = forms[st["form"] - 1]["spell"]
+                if sp != "plain":
+                    by_spell.setdefault(sp, []).append(k)
+    spelled = []
+    while len(spelled) < n_sessions // 3 and any(by_spell.values()):
+        for sp in sorted(by_spell):
+            while by_spell[sp]:
+                k = by_spell[sp].pop()
+                if k not in taken:
+                    taken.add(k)
+                    spelled.append(k)
+                    break
+    rest = [k for k in order if k not in taken][:max(0, n_sessions - len(first) - len(spelled))]
+    order = first[:n_child // 2] + spelled + rest + first[n_child // 2:]
     for pos, si in enumerate(order[:n_sessions]):
         b = msessions[si]
         chosen, lays = images_for(b)
@@ -419,7 +447,7 @@ def run(ctx):
         count(cov_dirs["signonetime"], b["dirs"])
         cov_clash[0] += 1 if clashes(b) else 0
         for st in plan:
-            count(cov_forms["signonetime"], "%(addr)s/cwd=%(cwd)s/pub=%(pub)s" % st["form"])
+            count(cov_forms["signonetime"], "%(addr)s/cwd=%(cwd)s/pub=%(pub)s/%(spell)s" % st["form"])
         for st in plan:
             cov_sign[b["size"]] += len(st["imgs"])
             signed.update(chosen[i - 1] for i in st["imgs"])
@@ -479,7 +507,7 @@ def run(ctx):
         cov_auth[b["size"]] += 1
         count(cov_dirs["message"], b["dirs"])
         for st in plan:
-            count(cov_forms["message"], "%(addr)s/cwd=%(cwd)s/pub=%(pub)s" % st["form"])
+            count(cov_forms["message"], "%(addr)s/cwd=%(cwd)s/pub=%(pub)s/%(spell)s" % st["form"])
         add(t, {"kind": "auth", "lays": lays, "pre": pre, "plan": plan, "infos": infos, "src": "model",
                 "dirs": b["dirs"], "otherdir": otherdir})
     res.coverage["model_message_sequences_replayed"] = n_auth
@@ -502,7 +530,8 @@ def run(ctx):
         "signonetime_runs_with_two_different_images_under_one_file_name": cov_clash[0]}
     want_dirs = {"flat", "samename", "mixed", "blanks"}
     if set(cov_dirs["signonetime"]) != want_dirs or set(cov_dirs["message"]) != want_dirs or \
-            len(cov_forms["signonetime"]) < len(forms) or len(cov_forms["message"]) < len(forms) or \
+            len(cov_forms["signonetime"]) < len(forms) or \
+            {k.split("/")[-1] for k in cov_forms["message"]} != {f["spell"] for f in forms} or \
             not cov_clash[0] or len(cov_shapes) < len(LAYOUT_SHAPES):
         raise core.MachineryError("invocation shapes not all exercised: %s" % res.coverage["invocation_shapes"])
     for s in sizes:
@@ -530,7 +559,9 @@ def run(ctx):
             {"kind": "layout", "lay": lay, "reports": reports, "src": lay.src})
     def rand_form():
         return {"addr": rng.choice(("rel", "abs", "dotslash", "mixed")), "cwd": rng.choice(("imgdir", "other")),
-                "pub": rng.choice(("rel", "abs", "otherdir"))}
+                "pub": rng.choice(("rel", "abs", "otherdir")),
+                "spell": rng.choice(("plain", "plain", "dotdot-link-decoy", "dotdot-link-empty", "dotdot-real",
+                                     "via-link", "file-link", "slashes", "inner-dot"))}
     n_rs = ctx.pick(48, 1000)
     for i in range(n_rs):
         nimg = rng.randrange(1, 5)
